@@ -34,6 +34,15 @@ NPROC = int(os.environ.get("VERIF_JOBS", "0")) or min(16, os.cpu_count() or 1)
 UNIT_STALL_S = 1500
 
 
+# Boundary ladder for every unbounded quantity (run lengths, counts, depths, distances): powers of two +-1 and round numbers.
+LADDER = sorted({0, 1, 2, 3, 4, 5, 7, 8, 9, 15, 16, 17, 31, 32, 33, 63, 64, 65, 100, 127, 128, 129, 255, 256, 257, 500, 501, 511, 512, 513, 1000, 1023, 1024, 1025,
+                 2047, 2048, 2049, 4095, 4096, 4097, 4300, 4301, 5000, 8191, 8192, 8193, 10000, 16383, 16384, 16385, 32767, 32768, 32769, 65535, 65536, 65537, 70000})
+
+
+def ladder(lo=0, hi=70000):
+    return [n for n in LADDER if lo <= n <= hi]
+
+
 class HarnessError(Exception):
     """The machinery (not the code under test) misbehaved.  Never reported as a VIOLATION."""
 
